@@ -181,7 +181,46 @@ func genIntent(r *R, c Cfg) Intent {
 	if r.P(0.5) {
 		in.UA = r.Range(1, 3)
 	}
+	// literals of the tree under test (dict.go): a host, a port, a method, a header name
+	if len(dict.any) > 0 && r.P(0.12) {
+		o := in.Origin
+		if h, ok := dictStr(r, dict.hosts, 0.4); ok {
+			o = pick(r, []string{"https://", "http://"}) + h
+		}
+		if n, ok := dictInt(r, dict.ports, 0.5); ok {
+			if pp, good := splitPattern(o); good && pp.Host != "" {
+				o = fmt.Sprintf("%s://%s:%d", pp.Scheme, pp.Host, n)
+			}
+		}
+		if browserSerialisable(o) {
+			in.Origin = o
+		}
+		if t, ok := dictStr(r, dict.tokens, 0.3); ok && strings.Trim(t, "ABCDEFGHIJKLMNOPQRSTUVWXYZabcdefghijklmnopqrstuvwxyz0123456789") == "" {
+			switch strings.ToUpper(t) {
+			case "CONNECT", "TRACE", "TRACK": // fetch() throws on forbidden methods: not an intent a page can have
+			default:
+				in.Method = t
+			}
+		}
+		if t, ok := dictStr(r, dict.tokens, 0.4); ok {
+			if t = strings.ToLower(t); strings.Trim(t, "abcdefghijklmnopqrstuvwxyz0123456789-") == "" && !forbiddenRequestHeader(t) {
+				in.Headers = append(in.Headers, t)
+			}
+		}
+	}
 	return in
+}
+
+// forbiddenRequestHeader: Fetch's "forbidden request-header" names, which a
+// page cannot set (the browser drops them silently): never part of an intent.
+func forbiddenRequestHeader(lower string) bool {
+	switch lower {
+	case "accept-charset", "accept-encoding", "access-control-request-headers", "access-control-request-method", "access-control-request-private-network",
+		"connection", "content-length", "cookie", "cookie2", "date", "dnt", "expect", "host", "keep-alive", "origin", "referer", "set-cookie",
+		"te", "trailer", "transfer-encoding", "upgrade", "via", "x-http-method", "x-http-method-override", "x-method-override":
+		return true
+	}
+	return strings.HasPrefix(lower, "proxy-") || strings.HasPrefix(lower, "sec-")
 }
 
 // browserSerialisable reports whether o is a tuple origin in a spelling a
